@@ -214,3 +214,8 @@ Definition from_parts (unicode_esc : bool) (parts : pointer) : result pointer :=
   map_result (fun p =>
                 t <- (if unicode_esc then unicode_escape (part_text p) else Ok (part_text p)) ;;
                 Ok (PStr t)) parts.
+
+(* JSONPointer.from_match: the match's parts taken verbatim — str for member names (even
+   when they look like integers), int for array indices *)
+Definition of_loc (l : loc) : pointer :=
+  map (fun p => match p with PKey k => PStr k | PIdx i => PInt (Z.of_nat i) end) l.
